@@ -76,12 +76,14 @@ impl Regex {
             }
 
             // we\re not adding the escape char to the output, because the output is not a regexp
-            if c == '\\' {
+            if c == '\\' && !escape {
                 escape = true;
                 continue;
             }
 
             result.push(c);
+            // the escape applies to a single character only
+            escape = false;
         }
 
         result
